@@ -206,6 +206,10 @@ HANDMADE = [      # (fault class, document): a closing quote that is escaped doe
     ('blank-inside-type', 'Table t {\n  kind crm. kind\n}\n'),
     ('blank-inside-type', 'Table t {\n  amount decimal(10,2) []\n}\n'),
 ] + [
+    # a colour is # and 3 or 6 ASCII hex digits: digits of other scripts are not hex digits
+    ('non-ascii-hex-colour', tmpl % col) for col in ('#١٢٣', '#１２３', '#١a٢b٣c', '#１２３４５６', '#a१c', '#٠٠٠٠٠٠', '#ａｂｃ')
+    for tmpl in ('Table t [headercolor: %s] {\n  id int\n}\n', 'Table t {\n  id int\n}\nTableGroup g [color: %s] {\n  t\n}\n')
+] + [
     # the number literal is digits[.digits]: nothing else is a number
     ('malformed-number', 'Table t {\n  a int [default: ' + lit + tail + ']\n}\n')
     for lit in ('12.', '1.', '.5', '1e5', '0x10', '1_000', '1,5', '1. 5', '12.e', '١٢', '1.2.', '5..')
